@@ -26,6 +26,10 @@ type CheckDef struct {
 	Gen         func(tier int) (map[string][]byte, error)
 	Post        func(c *CheckRun)                        // extra obligations after the harness runs
 	Timeout     [2]int                                   // per item, seconds (quick, thorough)
+	Also        []string                                 // harness files of these properties are loaded too
+	FnPattern   string                                   // harness functions of this property (default ^zz<ID>_)
+	Kinds       []string                                 // finding kinds that count for this property (default: all)
+	AssertOnly  string                                   // when set: only assertion messages matching this regex count
 	Assumptions []string
 	Bounds      map[string]interface{}
 	Trusted     []string
@@ -103,9 +107,13 @@ func tierName(t int) string {
 }
 
 // discover finds harness functions of a property textually in the harness tree and the generated files.
-func discover(id string, extra map[string][]byte) []Item {
-	decl := regexp.MustCompile(`(?m)^func (zz` + id + `_\w+)\(\)\s*\{`)
-	parts := regexp.MustCompile(`(?m)^func (zz` + id + `_\w+)_N\(\) int\s*\{\s*return (\d+)\s*\}`)
+func discover(id, fnPattern string, extra map[string][]byte) []Item {
+	decl := regexp.MustCompile(`(?m)^func (zzC\d+_\w+)\(\)\s*\{`)
+	parts := regexp.MustCompile(`(?m)^func (zzC\d+_\w+)_N\(\) int\s*\{\s*return (\d+)\s*\}`)
+	if fnPattern == "" {
+		fnPattern = "^zz" + id + "_"
+	}
+	want := regexp.MustCompile(fnPattern)
 	var items []Item
 	scan := func(rel string, b []byte) {
 		pn := map[string]int{}
@@ -115,6 +123,9 @@ func discover(id string, extra map[string][]byte) []Item {
 		}
 		for _, mm := range decl.FindAllSubmatch(b, -1) {
 			fn := string(mm[1])
+			if !want.MatchString(fn) || strings.HasSuffix(fn, "_N") {
+				continue
+			}
 			n := pn[fn]
 			if n == 0 {
 				n = 1
@@ -349,6 +360,9 @@ func checkMain(args []string) int {
 		return 3
 	}
 	overlayProp = strings.ToLower(id)
+	for _, a := range def.Also {
+		overlayProp += "," + strings.ToLower(a)
+	}
 	tier := 0
 	ts := *tierS
 	if ts == "" {
@@ -384,7 +398,7 @@ func checkMain(args []string) int {
 		os.MkdirAll(filepath.Dir(filepath.Join(extraDir, p)), 0o755)
 		os.WriteFile(filepath.Join(extraDir, p), b, 0o644)
 	}
-	items := discover(id, c.extra)
+	items := discover(id, def.FnPattern, c.extra)
 	if *only != "" {
 		var f []Item
 		re := regexp.MustCompile(*only)
@@ -491,6 +505,20 @@ func (c *CheckRun) finish(t0 time.Time) int {
 			}
 		}
 		for _, f := range r.Findings {
+			if len(c.def.Kinds) > 0 && f.Kind != "unsupported" && f.Kind != "bound" {
+				keep := false
+				for _, k := range c.def.Kinds {
+					if k == f.Kind {
+						keep = true
+					}
+				}
+				if f.Kind == "assert" && c.def.AssertOnly != "" && !regexp.MustCompile(c.def.AssertOnly).MatchString(f.Msg) {
+					keep = false
+				}
+				if !keep {
+					continue
+				}
+			}
 			switch f.Kind {
 			case "unsupported", "bound":
 				inconclusive = append(inconclusive, fmt.Sprintf("%s: %s at %s: %s", tag, f.Kind, f.Where, f.Msg))
@@ -711,6 +739,7 @@ func runMain(args []string) int {
 	smtlog := fs.String("smtlog", "", "log SMT input")
 	timeout := fs.Int("timeout", 0, "seconds")
 	cpuprof := fs.String("cpuprofile", "", "write a CPU profile")
+	also := fs.String("also", "", "also load harness files of these properties (comma separated)")
 	fs.Parse(args)
 	if *cpuprof != "" {
 		f, _ := os.Create(*cpuprof)
@@ -720,6 +749,9 @@ func runMain(args []string) int {
 	extra := map[string][]byte{}
 	if m := regexp.MustCompile(`^zz(C\d+)_`).FindStringSubmatch(*fn); m != nil {
 		overlayProp = strings.ToLower(m[1])
+		if *also != "" {
+			overlayProp += "," + strings.ToLower(*also)
+		}
 		if *gen == "" {
 			*gen = m[1]
 		}
@@ -778,6 +810,11 @@ func replayMain(args []string) int {
 	defer os.RemoveAll(tmp)
 	extra := map[string][]byte{}
 	overlayProp = strings.ToLower(v.Property)
+	if d := checks[v.Property]; d != nil {
+		for _, a := range d.Also {
+			overlayProp += "," + strings.ToLower(a)
+		}
+	}
 	if d := checks[v.Property]; d != nil && d.Gen != nil {
 		extra, _ = d.Gen(v.Tier)
 	}
